@@ -329,7 +329,16 @@ fn run_beh(beh: &Value, args: &Args, notes: &mut Vec<String>) -> Result<(u64, us
                 if let Some(p2) = p2 {
                     w.register_node(p2).map_err(|e| f(si, "tool:universe", e))?;
                 }
-                let v = check_view(&mut w, r, st.g("view"), si, false)?;
+                let v = match check_view(&mut w, r, st.g("view"), si, false) {
+                    Ok(v) => v,
+                    Err(mut e) => {
+                        // C07: a successful action commits all its commands, facts and one new head
+                        if !e.key.starts_with("C07:") {
+                            e.also.push("C07:state-after-action".into());
+                        }
+                        return Err(e);
+                    }
+                };
                 // C07: one new head descending from every previous head
                 if v.heads.len() != 1 || !before.reachable.is_subset(&v.reachable) {
                     return Err(f(si, "C07:not-one-head", format!("after a successful action heads = {:?}", w.labels(&v.heads))));
